@@ -206,7 +206,9 @@ class _RangeIterator(Iterator[_ValueT]):
         batch_size = self._batch_size
         if self._batch_size > 1:
           batch_size = min(self.i + self._batch_size, self.stop) - self.i
-          self._cache.extend(self.data[self.i : self.i + batch_size])
+          # Reads the whole batch before caching any of it: a lazily evaluated
+          # slice can fail half way, the range is then read again.
+          self._cache.extend(list(self.data[self.i : self.i + batch_size]))
         else:
           self._cache.append(self.data[self.i])
         self.i += batch_size
